@@ -491,6 +491,7 @@ func opKinds(ops []Op) string {
 
 func runHistory(c *CheckCtx, i int, r *Rng, cfg HistConfig) error {
 	sc, w := DrawHistory(r, cfg)
+	sc.LinkedRoot = i%8 == 5
 	out, err := c.RunScenario(sc, i)
 	if err != nil {
 		return err
